@@ -63,7 +63,7 @@ m = {
   {"name": "E1 vsched", "path": "harness/src/vsched.rs", "serves_properties": ["C03","C04","C05","C06","C07","C10","C16","C19","C20"], "kind_free_text": "stateless model checking of the implementation: controlled scheduler over real OS threads, preemption-bounded DFS (iterative context bounding), replay + determinism validation"},
   {"name": "E2 loom", "path": "loomh/ (cell.rs, atomics.rs), loomb/ (bucket.rs + crossbeam-epoch in loom mode)", "serves_properties": ["C01","C02","C04","C05"], "kind_free_text": "loom 0.7.2 on the repository's own source files (#[path] include), C11 memory model, preemption bound or unbounded"},
   {"name": "E3 vseq", "path": "harness/src/vseq.rs", "serves_properties": ["C01","C03","C04","C06","C07","C08","C09","C10","C12","C13","C14","C15","C16","C17","C19"], "kind_free_text": "bounded exhaustive enumeration of operation sequences / inputs / configurations on fresh real objects against a reference model"},
-  {"name": "E4 vio", "path": "harness/src/bin", "serves_properties": ["C10","C11","C18"], "kind_free_text": "enumeration of event histories and environment answers against real exporter threads over loopback sockets"},
+  {"name": "E4 vio", "path": "harness/src/bin", "serves_properties": ["C09","C10","C11","C16","C18"], "kind_free_text": "enumeration of event histories and environment answers against real exporter threads over loopback sockets"},
  ],
  "checks": checks,
  "not_applicable": na,
